@@ -138,7 +138,15 @@ func (m *messageSenderImpl) messageSenderForPeer(ctx context.Context, p peer.ID)
 	m.strmap[p] = ms
 	m.smlk.Unlock()
 
-	if err := ms.prepOrInvalidate(ctx); err != nil {
+	if invalidated, err := ms.prepOrInvalidate(ctx); err != nil {
+		if !invalidated {
+			// Our context ended while we waited for the sender's lock: the
+			// sender is untouched and may be in use by another caller who
+			// found it in the map. Removing it from the map would orphan it
+			// with its stream open and let a second stream be opened to the
+			// peer.
+			return nil, err
+		}
 		m.smlk.Lock()
 		defer m.smlk.Unlock()
 
@@ -182,17 +190,19 @@ func (ms *peerMessageSender) invalidate() {
 	}
 }
 
-func (ms *peerMessageSender) prepOrInvalidate(ctx context.Context) error {
+// prepOrInvalidate reports whether it invalidated the sender. It does not when
+// the context ends before the sender's lock is acquired.
+func (ms *peerMessageSender) prepOrInvalidate(ctx context.Context) (invalidated bool, err error) {
 	if err := ms.lk.Lock(ctx); err != nil {
-		return err
+		return false, err
 	}
 	defer ms.lk.Unlock()
 
 	if err := ms.prep(ctx); err != nil {
 		ms.invalidate()
-		return err
+		return true, err
 	}
-	return nil
+	return false, nil
 }
 
 func (ms *peerMessageSender) prep(ctx context.Context) error {
